@@ -9,7 +9,7 @@
 //! Additionally every range is round-tripped through serde's own visitors (`Vec<Data>`,
 //! `HashMap<String, Data>`, tuples, a derived struct with `Option` fields) against an independent
 //! expectation (family `derive`), and the cell conversion table is swept (family `convert`).
-use calamine::{CellErrorType, Data, DeError, ExcelDateTime, ExcelDateTimeType, Range, RangeDeserializerBuilder, ToCellDeserializer};
+use calamine::{CellErrorType, Data, DataType, DeError, ExcelDateTime, ExcelDateTimeType, Range, RangeDeserializerBuilder, ToCellDeserializer};
 use serde::de::{DeserializeSeed, Deserializer, EnumAccess, MapAccess, SeqAccess, Visitor};
 use serde::Deserialize;
 use std::cell::RefCell;
@@ -28,6 +28,70 @@ enum Cfg {
     Custom(Vec<String>),
 }
 
+/// one consumption step, performed on `&mut it` (adaptors through `by_ref()`)
+#[derive(Clone, Debug, PartialEq)]
+enum Op {
+    Next,
+    Nth(usize),
+    /// `it.by_ref().skip(k).next()`
+    Skip(usize),
+    /// `it.by_ref().step_by(k).take(m)`, every item
+    StepBy(usize, usize),
+    /// `it.by_ref().take(m)`, every item
+    Take(usize),
+    Last,
+    Count,
+    /// nothing: `size_hint` once more
+    Hint,
+}
+
+impl Op {
+    fn wire(&self) -> String {
+        match self {
+            Op::Next => "x".into(),
+            Op::Nth(n) => format!("n{n}"),
+            Op::Skip(k) => format!("s{k}"),
+            Op::StepBy(k, m) => format!("t{k}:{m}"),
+            Op::Take(m) => format!("k{m}"),
+            Op::Last => "l".into(),
+            Op::Count => "c".into(),
+            Op::Hint => "h".into(),
+        }
+    }
+    fn parse(w: &str) -> Op {
+        let num = |s: &str| s.parse::<usize>().expect("op argument");
+        match &w[..1] {
+            "x" => Op::Next,
+            "l" => Op::Last,
+            "c" => Op::Count,
+            "h" => Op::Hint,
+            "n" => Op::Nth(num(&w[1..])),
+            "s" => Op::Skip(num(&w[1..])),
+            "k" => Op::Take(num(&w[1..])),
+            "t" => {
+                let (a, b) = w[1..].split_once(':').expect("step_by op");
+                Op::StepBy(num(a), num(b))
+            }
+            x => panic!("bad op {x}"),
+        }
+    }
+}
+
+fn ops_wire(ops: &[Op]) -> String {
+    if ops.iter().all(|o| *o == Op::Next) {
+        ops.len().to_string() // `n` calls to next (the form older replays use)
+    } else {
+        ops.iter().map(|o| o.wire()).collect::<Vec<_>>().join(",")
+    }
+}
+
+fn ops_parse(w: &str) -> Vec<Op> {
+    match w.parse::<usize>() {
+        Ok(n) => vec![Op::Next; n],
+        Err(_) => w.split(',').map(Op::parse).collect(),
+    }
+}
+
 #[derive(Clone, Debug)]
 struct Case {
     /// `None` = `Range::empty()`; else (start row, start col, height ≥ 1, width ≥ 1)
@@ -35,7 +99,7 @@ struct Case {
     cells: Vec<Data>,
     cfg: Cfg,
     map: bool,
-    n: usize,
+    ops: Vec<Op>,
     sched: Vec<String>,
 }
 
@@ -118,7 +182,7 @@ impl Case {
                 s
             }
         };
-        format!("de {rg} {cfg} {} {} {}", if self.map { "map" } else { "seq" }, self.n, self.sched.join(","))
+        format!("de {rg} {cfg} {} {} {}", if self.map { "map" } else { "seq" }, ops_wire(&self.ops), self.sched.join(","))
     }
     fn parse(s: &str) -> Case {
         let p: Vec<&str> = s.split_whitespace().collect();
@@ -135,7 +199,7 @@ impl Case {
             "A" => Cfg::All,
             c => Cfg::Custom(c.split('/').skip(1).map(ustr).collect()),
         };
-        Case { dims, cells, cfg, map: p[3] == "map", n: p[4].parse().unwrap(), sched: p[5].split(',').map(|x| x.to_string()).collect() }
+        Case { dims, cells, cfg, map: p[3] == "map", ops: ops_parse(p[4]), sched: p[5].split(',').map(|x| x.to_string()).collect() }
     }
     fn h(&self) -> usize {
         self.dims.map_or(0, |d| d.2)
@@ -381,6 +445,9 @@ impl<'de> Visitor<'de> for RowVisitor {
 
 impl<'de> Deserialize<'de> for RecRow {
     fn deserialize<D: Deserializer<'de>>(d: D) -> Result<RecRow, D::Error> {
+        // the log describes the row being deserialized now (rows dropped by nth/skip/… leave no trace)
+        LOG.with(|l| l.borrow_mut().clear());
+        HEAD.with(|h| h.borrow_mut().clear());
         let m = ROW_METHOD.with(|m| *m.borrow());
         match m {
             0 => d.deserialize_any(RowVisitor),
@@ -445,22 +512,52 @@ fn run_impl(case: &Case, variant: u64) -> String {
     };
     let mut out = vec!["ok".to_string()];
     out.push(guarded(|| it.size_hint()).map(hint_canon).unwrap_or("panic".into()));
-    for _ in 0..case.n {
-        LOG.with(|l| l.borrow_mut().clear());
-        HEAD.with(|h| h.borrow_mut().clear());
-        let r = guarded(|| it.next());
-        let item = match r {
-            Err(_) => "panic".to_string(),
-            Ok(None) => "none".to_string(),
-            Ok(Some(res)) => {
+    // the canonical text of what a call returned (the log holds the row deserialized last = the returned one)
+    fn item_text(res: Option<Result<RecRow, DeError>>) -> String {
+        match res {
+            None => "none".to_string(),
+            Some(res) => {
                 let mut parts: Vec<String> = LOG.with(|l| l.borrow().clone());
                 if let Err(e) = res {
                     parts.push(err_canon(&e));
                 }
                 format!("{}{}", HEAD.with(|h| h.borrow().clone()), parts.join(";"))
             }
+        }
+    }
+    fn many(v: Vec<String>) -> String {
+        if v.is_empty() {
+            "-".into()
+        } else {
+            v.join(" & ")
+        }
+    }
+    for op in &case.ops {
+        let r: Result<String, String> = match op {
+            Op::Next => guarded(|| item_text(it.next())),
+            Op::Nth(n) => guarded(|| item_text(it.nth(*n))),
+            Op::Skip(k) => guarded(|| item_text(it.by_ref().skip(*k).next())),
+            Op::StepBy(k, m) => guarded(|| {
+                let mut v = vec![];
+                let mut ad = it.by_ref().step_by(*k).take(*m);
+                while let Some(r) = ad.next() {
+                    v.push(item_text(Some(r)));
+                }
+                many(v)
+            }),
+            Op::Take(m) => guarded(|| {
+                let mut v = vec![];
+                let mut ad = it.by_ref().take(*m);
+                while let Some(r) = ad.next() {
+                    v.push(item_text(Some(r)));
+                }
+                many(v)
+            }),
+            Op::Last => guarded(|| item_text(it.by_ref().last())),
+            Op::Count => guarded(|| format!("count={}", it.by_ref().count())),
+            Op::Hint => Ok("h".to_string()),
         };
-        out.push(item);
+        out.push(r.unwrap_or("panic".to_string()));
         out.push(guarded(|| it.size_hint()).map(hint_canon).unwrap_or("panic".into()));
     }
     out.join(" | ")
@@ -647,13 +744,65 @@ fn run_oracle(case: &Case) -> String {
     };
     let total = case.h() - hdr;
     let mut out = vec!["ok".to_string(), format!("{total},{total}")];
-    for k in 0..case.n {
-        if k < total {
-            out.push(o_item(case, &cols, &hs, hdr + k));
-        } else {
-            out.push("none".into());
-        }
-        let rem = total.saturating_sub(k + 1);
+    // `cur` rows are consumed; the item of the row at offset `j` is wanted (or None past the end)
+    let mut cur = 0usize;
+    let item = |j: usize| -> Option<String> { if j < total { Some(o_item(case, &cols, &hs, hdr + j)) } else { None } };
+    let many = |v: Vec<String>| if v.is_empty() { "-".to_string() } else { v.join(" & ") };
+    for op in &case.ops {
+        let res = match op {
+            Op::Next | Op::Nth(_) | Op::Skip(_) => {
+                let skip = match op {
+                    Op::Nth(n) | Op::Skip(n) => *n,
+                    _ => 0,
+                };
+                let r = item(cur.saturating_add(skip));
+                cur = cur.saturating_add(skip).saturating_add(1).min(total);
+                r.unwrap_or("none".into())
+            }
+            Op::StepBy(k, m) => {
+                let mut v = vec![];
+                for i in 0..*m {
+                    let j = cur + if i == 0 { 0 } else { k - 1 };
+                    match item(j) {
+                        Some(x) => {
+                            v.push(x);
+                            cur = j + 1;
+                        }
+                        None => {
+                            cur = total;
+                            break;
+                        }
+                    }
+                }
+                many(v)
+            }
+            Op::Take(m) => {
+                let mut v = vec![];
+                for _ in 0..*m {
+                    match item(cur) {
+                        Some(x) => {
+                            v.push(x);
+                            cur += 1;
+                        }
+                        None => break,
+                    }
+                }
+                many(v)
+            }
+            Op::Last => {
+                let r = if cur < total { item(total - 1).unwrap() } else { "none".into() };
+                cur = total;
+                r
+            }
+            Op::Count => {
+                let r = format!("count={}", total - cur);
+                cur = total;
+                r
+            }
+            Op::Hint => "h".into(),
+        };
+        out.push(res);
+        let rem = total - cur;
         out.push(format!("{rem},{rem}"));
     }
     out.join(" | ")
@@ -794,10 +943,24 @@ fn shrink(case: &Case, variant: u64, kind: &str, sig: &str, drv: &mut Driver) ->
                 }
             }
         }
-        if cur.n > 0 {
+        for k in (0..cur.ops.len()).rev() {
             let mut c = cur.clone();
-            c.n -= 1;
+            c.ops.remove(k);
             cands.push(c);
+        }
+        for k in 0..cur.ops.len() {
+            let simpler = match &cur.ops[k] {
+                Op::Skip(n) => Some(Op::Nth(*n)),
+                Op::Nth(n) if *n > 1 => Some(Op::Nth(n - 1)),
+                Op::StepBy(a, b) if *b > 2 => Some(Op::StepBy(*a, b - 1)),
+                Op::Take(m) if *m > 1 => Some(Op::Take(m - 1)),
+                _ => None,
+            };
+            if let Some(o) = simpler {
+                let mut c = cur.clone();
+                c.ops[k] = o;
+                cands.push(c);
+            }
         }
         if cur.sched != vec!["any".to_string()] {
             let mut c = cur.clone();
@@ -1172,6 +1335,55 @@ fn convert_case(d: &Data, t: &str, pos: (u32, u32), drv: &mut Driver, rep: &mut 
     }
 }
 
+/// family `helpers`: the `deserialize_as_*_or_none` / `_or_string` functions of lib.rs, called on the cell
+/// deserializer. Documented contract: the cell is rebuilt as `Data` (through `deserialize_any`), the named
+/// `as_*` accessor is applied, the call never fails — except that an error cell is a `CellError` at its position.
+/// (implementation-level oracle only: the accessors themselves belong to datatype.rs and are not modelled here)
+fn helpers_case(d: &Data, pos: (u32, u32), rep: &mut Report) {
+    let text = format!("helpers {} {},{}", cell_wire(d), pos.0, pos.1);
+    let rebuilt = if matches!(d, Data::Error(_)) { Data::Empty } else { o_data(d) };
+    macro_rules! one {
+        ($name:literal, $f:path, $acc:ident, $or_string:expr) => {{
+            let got = match guarded(|| $f(d.to_cell_deserializer(pos))) {
+                Err(_) => "panic".to_string(),
+                Ok(Err(e)) => err_canon(&e),
+                Ok(Ok(v)) => format!("{:?}", v),
+            };
+            let want = if let Data::Error(e) = d {
+                format!("!CE:{}:{}:{}", kind_index(e), pos.0, pos.1)
+            } else {
+                match guarded(|| rebuilt.$acc()) {
+                    Err(_) => "panic".to_string(),
+                    Ok(v) => {
+                        if $or_string {
+                            format!("{:?}", v.ok_or_else(|| rebuilt.to_string()))
+                        } else {
+                            format!("{:?}", v)
+                        }
+                    }
+                }
+            };
+            rep.count(concat!("helpers.", $name));
+            if got != want {
+                rep.fail("impl_vs_spec", concat!("helpers:", $name), &text, &got, "", &want);
+            }
+        }};
+    }
+    one!("i64_or_none", calamine::deserialize_as_i64_or_none, as_i64, false);
+    one!("i64_or_string", calamine::deserialize_as_i64_or_string, as_i64, true);
+    one!("f64_or_none", calamine::deserialize_as_f64_or_none, as_f64, false);
+    one!("f64_or_string", calamine::deserialize_as_f64_or_string, as_f64, true);
+    one!("date_or_none", calamine::deserialize_as_date_or_none, as_date, false);
+    one!("date_or_string", calamine::deserialize_as_date_or_string, as_date, true);
+    one!("time_or_none", calamine::deserialize_as_time_or_none, as_time, false);
+    one!("time_or_string", calamine::deserialize_as_time_or_string, as_time, true);
+    one!("duration_or_none", calamine::deserialize_as_duration_or_none, as_duration, false);
+    one!("duration_or_string", calamine::deserialize_as_duration_or_string, as_duration, true);
+    one!("datetime_or_none", calamine::deserialize_as_datetime_or_none, as_datetime, false);
+    one!("datetime_or_string", calamine::deserialize_as_datetime_or_string, as_datetime, true);
+    rep.case(&text, !matches!(d, Data::Empty));
+}
+
 // ------------------------------------------------------------------------------------------------
 // generators
 // ------------------------------------------------------------------------------------------------
@@ -1375,13 +1587,37 @@ fn gen_case(rng: &mut Rng) -> Case {
             Cfg::Custom(names)
         }
     };
-    let n = if rng.chance(3, 4) { h + 1 } else { rng.below(9) as usize };
+    let ops: Vec<Op> = match rng.below(10) {
+        0..=3 => vec![Op::Next; h + 1],
+        4 => vec![Op::Next; rng.below(9) as usize],
+        _ => {
+            // a random mixture of consumption steps, until the rows are (probably) used up
+            let mut ops = vec![];
+            for _ in 0..rng.range(1, 6) {
+                ops.push(match rng.below(16) {
+                    0..=3 => Op::Next,
+                    4..=6 => Op::Nth(rng.below(4) as usize),
+                    7..=8 => Op::Skip(rng.below(4) as usize),
+                    9..=10 => Op::StepBy(rng.range(1, 3) as usize, rng.below(4) as usize),
+                    11 => Op::Take(rng.below(4) as usize),
+                    12 => Op::Last,
+                    13 => Op::Count,
+                    14 => Op::Nth(*rng.pick(&[7usize, 4294967295, 4294967296, usize::MAX])),
+                    _ => Op::Hint,
+                });
+            }
+            if rng.chance(1, 2) {
+                ops.push(Op::Next);
+            }
+            ops
+        }
+    };
     let sched: Vec<String> = if rng.chance(1, 3) {
         vec!["any".into()]
     } else {
         (0..rng.range(1, 4)).map(|_| rng.pick(&TARGETS).to_string()).collect()
     };
-    Case { dims, cells, cfg, map: rng.chance(1, 2), n, sched }
+    Case { dims, cells, cfg, map: rng.chance(1, 2), ops, sched }
 }
 
 fn corpus() -> Vec<&'static str> {
@@ -1393,6 +1629,14 @@ fn corpus() -> Vec<&'static str> {
         "de 0,0,1,2/I:1,E:1 A seq 0 any",
         "de 4294967295,0,1,1/S:61 A seq 1 any",
         "de 4294967294,0,2,1/_,B:1 A map 3 i64",
+        // seeded C09-m4 (an `nth` override advancing the row position by n-1): positions after nth / skip / step_by
+        "de 0,0,3,1/I:1,I:1,E:0 N seq n2 any",
+        "de 0,0,3,1/I:1,I:1,E:0 N seq s2 any",
+        "de 0,0,3,1/I:1,I:1,E:0 N seq t2:2 any",
+        "de 20,3,7,2/S:6b,S:76,I:21,I:1,I:22,I:1,I:23,E:4,I:24,E:2,I:25,I:1,I:26,E:6 A seq s2,x,x,x,x i64,f64",
+        "de 20,3,7,2/S:6b,S:76,I:21,I:1,I:22,I:1,I:23,E:4,I:24,E:2,I:25,I:1,I:26,E:6 C/76/6b map h,n0,n1,h,n2,x f64,i64",
+        "de 20,3,7,2/S:6b,S:76,I:21,I:1,I:22,I:1,I:23,E:4,I:24,E:2,I:25,I:1,I:26,E:6 A seq t3:2,k1,c,l i64,f64",
+        "de 4294967293,0,3,1/I:1,I:1,E:0 N seq n18446744073709551615,x any",
         // D04: three data rows, no headers: size_hint was (2,Some(2)) before, during and after
         "de 0,0,3,1/I:1,I:2,I:3 N seq 4 any",
         // D04: header-only range: size_hint underflowed (panic under overflow checks)
@@ -1433,11 +1677,11 @@ fn main() {
          variants incl. error cells; header rows with duplicate / padded / empty / non-string names) x header config (none / all / \
          custom: subsets of the trimmed header texts in any order with whitespace padding, repeated, or absent names) x record shape \
          (seq family: any/seq/tuple/…; map family: map/struct) x cyclic schedule of 1-4 cell targets out of all 29 deserialize_* \
-         methods; a recording Deserialize impl observes the exact visit_seq/visit_map event stream (values seen before the first \
-         failure + the error) and size_hint before/after every next (height+1 calls); compared impl vs Lean model vs independent \
+         methods x consumption history (either height+1 / 0-8 calls to next, or a random mixture of 1-7 steps out of next, nth(n), by_ref().skip(k).next(), by_ref().step_by(k).take(m), by_ref().take(m), by_ref().last(), by_ref().count(), size_hint only; n up to usize::MAX; on the model side nth is the model's nth (= n+1 next steps, theorem nth_eq_iterate_next) and the adaptors are mapped to the next/nth sequences std performs: skip(k).next() = nth(k), step_by(k) = nth(0) then nth(k-1), take/last/count = repeated next); a recording Deserialize impl observes the exact visit_seq/visit_map event stream (values seen before the first \
+         failure + the error) and size_hint before/after every step; compared impl vs Lean model vs independent \
          oracle. Family derive: the same ranges through Vec<Data>, HashMap<String,Data>, (String,Option<f64>,bool) and a derived \
          struct with Option fields (with_deserialize_headers) against an expectation computed from the description. Family convert: \
-         every pool cell x every target. Non-trivial = a non-empty range with at least one data row; distinct by case text",
+         every pool cell x every target. Family helpers: the 12 deserialize_as_*_or_none/_or_string functions on pool and random cells (error cell => CellError at its position, else the accessor applied to the rebuilt Data). Non-trivial = a non-empty range with at least one data row; distinct by case text",
     );
     rep.notes.push("Rust std f64::to_string / str::parse::<f64|f32> are measured on the real std for the cells of each case and passed to the model as its `Std` parameter (theorems hold for every Std)".into());
     rep.notes.push("serde and serde_derive visitors are not modelled: the model describes the event stream handed to any visitor; derived types are exercised as an implementation-level oracle".into());
@@ -1558,6 +1802,15 @@ fn main() {
             for t in TARGETS {
                 convert_case(d, t, (7, 9), &mut drv, &mut rep);
             }
+        }
+        for d in &pool {
+            helpers_case(d, (7, 9), &mut rep);
+        }
+        pool.push(Data::DateTimeIso("2021-03-04T05:06:07".into()));
+        pool.push(Data::DurationIso("PT1H2M".into()));
+        for _ in 0..args.count(2_000, 100_000) {
+            let d = gen_cell(&mut rng);
+            helpers_case(&d, (rng.next() as u32, rng.next() as u32), &mut rep);
         }
         let extra = args.count(6_000, 600_000);
         for _ in 0..extra {
